@@ -6,14 +6,14 @@ import itertools
 from .. import gen, oracle, tt as T
 from .base import Mgr, replay  # noqa: F401
 
-RULE = ('histories over {var, and, not-and, incref, decref, collect, collect(roots), swap, '
-        'ite on a recycled cache key}: all sequences up to length L over a 10-letter alphabet '
+RULE = ('histories over {var, and, not-and, xor, incref, decref, collect, collect(roots), swap, '
+        'ite on a recycled cache key}: all sequences up to length L over a 12-letter alphabet '
         '(3 variables) exhaustively (L=4 quick, 5 thorough) and long random histories; a case is '
         'one step of one history; distinct by the history prefix')
 EXHAUSTIVE = {'quick': True, 'thorough': True}
 ASSUMES = ['histories never release more than they took (decref flooring unreachable)']
 
-LETTERS = ['var0', 'var1', 'var2', 'and', 'nand', 'incref', 'decref', 'gc', 'gcroots', 'swap', 'ite']
+LETTERS = ['var0', 'var1', 'var2', 'and', 'nand', 'xor', 'incref', 'decref', 'gc', 'gcroots', 'swap', 'ite']
 
 
 class Hist:
@@ -39,10 +39,13 @@ class Hist:
             r = M.op('var', int(letter[3]))
             if r is not None:
                 self.recent.append(r)
-        elif letter in ('and', 'nand'):
+        elif letter in ('and', 'nand', 'xor'):
             a = pick(self.recent)
             c = self.recent[-2] if rng is None else rng.choice(self.recent)
-            r = M.op('apply', 'and', a, -c if letter == 'nand' else c, None)
+            if letter == 'xor':
+                r = M.op('apply', 'xor', a, c, None)
+            else:
+                r = M.op('apply', 'and', a, -c if letter == 'nand' else c, None)
             if r is not None:
                 self.recent.append(r)
         elif letter == 'incref':
@@ -142,6 +145,51 @@ class Hist:
         self.held = []
 
 
+def swap_shapes(ctx, tts):
+    """held functions (and a held inner node) across level swaps, then the
+    parent is released and collected: counts must be exact after every step and
+    the inner node must survive with its function"""
+    rng = ctx.rng
+    for t in tts:
+        h = Hist(ctx, f'swap-shape {t:#x}')
+        M = h.M
+        f = M.build(t)
+        if f is None or abs(f) == 1:
+            continue
+
+        def hold(u):
+            M.op('incref', u)
+            h.ledger[abs(u)] = h.ledger.get(abs(u), 0) + 1
+            h.held.append(u)
+            h.tts[u] = M.tt(u)
+        hold(f)
+        h.observe()
+        for x in rng.sample([0, 1, 0, 1], 3):
+            M.op('swap', x, x + 1)
+            h.observe()
+            ctx.case(('swap-shape', t, len(M.s.lines)), True)
+            # hold an inner node of f (a second referrer of a shared child)
+            inner = [u for u in oracle.reachable(M.b, [abs(f)]) if u not in (1, abs(f))]
+            if inner and rng.random() < 0.7:
+                hold(rng.choice(sorted(inner)))
+        # release the parent, collect, re-use the freed numbers
+        h.held.remove(f)
+        M.op('decref', f)
+        h.ledger[abs(f)] -= 1
+        if f not in h.held:
+            h.tts.pop(f, None)
+        before = set(M.b._succ)
+        M.op('gc', None)
+        h.after_collect(before, exact=True)
+        h.observe()
+        M.build(rng.getrandbits(8))
+        h.observe()
+        ctx.count('swap-shapes')
+        h.finish()
+        if not h.ok:
+            break
+
+
 def exhaustive(ctx, L):
     """all words of length L (prefix-closed: shorter histories are covered as
     prefixes); one session per first two letters to keep sessions small"""
@@ -175,12 +223,20 @@ def random_history(ctx, steps):
 def run(ctx):
     q = ctx.quick
     gen.reuse_scenarios(ctx, 'C06:stale-result', 'C06', reps=12 if q else 150)
+    parity = [0x96, 0x69, 0x66, 0x99, 0x3c, 0xc3, 0x5a, 0xa5, 0x6a, 0x9a, 0x1e, 0x78]
+    swap_shapes(ctx, parity + (sorted(ctx.rng.sample(range(256), 20)) if q else list(range(256))))
     exhaustive(ctx, 3 if q else 4)
+    global LETTERS
+    if q:
+        # length 4 over the letters that create shared/complemented children and move levels
+        saved = LETTERS
+        LETTERS = ['var0', 'var1', 'xor', 'and', 'incref', 'gc', 'swap']
+        exhaustive(ctx, 4)
+        LETTERS = saved
     if not q:
         # length 5 over the letters that change reachability
-        global LETTERS
         saved = LETTERS
-        LETTERS = ['var0', 'var1', 'and', 'incref', 'decref', 'gc', 'swap', 'ite']
+        LETTERS = ['var0', 'var1', 'xor', 'and', 'incref', 'decref', 'gc', 'swap', 'ite']
         exhaustive(ctx, 5)
         LETTERS = saved
     for _ in range(6 if q else 60):
